@@ -230,10 +230,13 @@ def run(ctx):
         if not q:
             combos.append((sv, pb, "one" if hist == "two" else "two"))
     combos += [(sv, "tab", "two") for sv in (("vi", "pi") if q else solvers)]
+    combos += [("vi-sp", "forest", "one")]  # jax_double_precision=False stored in the configuration
     for sv, pb, hist in combos:
         d = os.path.join(scratch, "c10_%s_%s_%s" % (sv, pb, hist))
         problem = {"kind": "tab", "n": 7} if pb == "tab" else {"kind": pb, "kw": PROBLEMS[pb][0]}
-        spec = {"problem": problem, "solver": sv, "kw": SOLVER_KW[sv], "ckpt": {"dir": d, "f": 1, "m": 3, "async": (hist == "two")},
+        if sv == "vi-sp":
+            SOLVER_KW["vi-sp"] = dict(SOLVER_KW["vi"], jax_double_precision=False)
+        spec = {"problem": problem, "solver": sv.split("-")[0], "kw": SOLVER_KW[sv], "ckpt": {"dir": d, "f": 1, "m": 3, "async": (hist == "two")},
                 "calls": [3] if hist == "one" else [2, 2], "record_saves": d + ".side.json"}
         writers.append((sv, pb, hist, d, spec))
     ctx.log("writers", len(writers))
@@ -268,7 +271,7 @@ def run(ctx):
                     cases.append({"step": st, "ov": ov, "continue": False})
             if "checkpoint_frequency" in OVR:
                 cases.append({"step": None, "ov": {"checkpoint_frequency": 0, "new_checkpoint_dir": "NEW"}, "continue": True})
-        jobs.append({"dir": d, "pristine": pristine, "side": d + ".side.json", "solver": sv, "kw": SOLVER_KW[sv], "problem": spec["problem"], "config": r.get("config"), "cases": cases,
+        jobs.append({"dir": d, "pristine": pristine, "side": d + ".side.json", "solver": sv.split("-")[0], "kw": SOLVER_KW[sv], "problem": spec["problem"], "config": r.get("config"), "cases": cases,
                      "call_of_step": call_of, "label": "%s/%s/%s" % (sv, pb, hist)})
         if err_src is None and not lite:
             err_src = (pristine, d)
